@@ -32,13 +32,27 @@ be either in between; scripts avoid looking in between):
   fail_changes_nothing   ... and listing and state file are unchanged
   restart_consistent     after a shutdown and a restart on the state file the listing is exactly the live holds
   cli_no_crash           the tool never times out, is never killed by a signal, prints no panic
+  list_matches_ipc       `list` prints exactly the entries IPC.ListLocks of the same server returns (the driver asks the
+                         IPC receiver itself, right before and right after the tool ran), one per line
+  unlock_exact           the server's own listing right before and right after `unlock NAME [KEY]` differs by exactly the hold
+                         the IPC semantics designate for the arguments AS GIVEN (name+key: that hold; name alone: one hold of
+                         exactly that name; no such hold: nothing) — no hold of another name, e.g. of the name with its
+                         surrounding whitespace removed, is released instead or in addition
+Names: besides plain ones, names with leading / trailing space, tab, newline, CR, NBSP together with a sibling lock whose
+name is the trimmed form (held by another session), names that are only whitespace, the empty name (nobody can hold it:
+unlock must fail), keys padded with whitespace (a wrong key), names kong would read as flags or commands (`-x`, `--help`,
+`--socket=..`, `--`, `unlock`) and names with quotes, `$`, backquotes, `, Key: ` or a whole listing line inside. The tool
+supports `--`: flag-like names are passed as `unlock -- NAME [KEY]`; one bare attempt without `--` per such scenario
+records what the tool does (kong: usage error, exit 80, or its help text) and is judged only on changing nothing. The
+listing is read back entry by entry (an entry may contain newlines): the text of every hold the clients know is looked for
+first, `{Name: (.*?), Key: (\S*), Size: (\d+)}` otherwise.
 The same script steps and the same clauses are applied to releases by the holder's own Unlock and by another session's Unlock
 (control: "the same effect as the holder's own Unlock").
 
     python3 -m lib.clitie [--tier quick|thorough] [--seed N] [--replay FILE [--runs N]] [-v]
     clitie.run_property(ctx, tier=None)       from checks/c18.py (coverage under ctx.coverage["ties"]["T4-cli"]); when
                                               ctx.replay names one of this tie's replay files it re-runs that scenario
-    python3 -m lib.clitie --sensitivity       seeded defects in a scratch worktree under /tmp/c18bin (development tool)
+    python3 -m lib.clitie --sensitivity [--only ids]   seeded defects in scratch worktrees under /tmp/c18bin (development tool)
 VERIF_REPO selects the tree.
 """
 import json
@@ -62,10 +76,32 @@ PAST_MS = 700              # scripts look this long after a lease ran out
 CLAUSES = ["list_runs", "list_nothing_missing", "list_nothing_stale", "unlock_reports_ok", "unlock_releases", "by_name_exactly_one",
            "file_drops_released", "file_exact", "capacity_freed", "capacity_freed_once", "lease_gone", "quiet_after_lease",
            "old_key_dead", "others_untouched", "capacity_kept", "unlock_fails", "fail_changes_nothing", "restart_consistent",
-           "cli_no_crash"]
-KINDS = ["key", "name1", "nameN", "leased", "restored", "blocked", "negative", "control"]
+           "cli_no_crash", "list_matches_ipc", "unlock_exact"]
+KINDS = ["key", "name1", "nameN", "leased", "restored", "blocked", "negative", "control", "wsname", "wsonly", "hostile"]
+NEW_KINDS = ("wsname", "wsonly", "hostile")
+HEADLINE = ["unlock_exact", "unlock_releases", "unlock_reports_ok", "unlock_fails", "by_name_exactly_one"]    # what a violation's text starts with
 NAMES = ["jobs", "db/main", "cache.v2", "report 7", "q:high", "x", "Z_9", "a-b"]
 LINE_RE = re.compile(r"^\{Name: (.*), Key: (\S*), Size: (-?\d+)\}$")
+ENTRY_RE = re.compile(r"\{Name: (.*?), Key: (\S*), Size: (-?\d+)\}", re.S)
+WS = [" ", "\t", "\n", "  ", "\r", " \t", "\u00a0", "\r\n"]
+WS_BASES = ["jobs", "batch", "a", "db/main", "q:high", "Z_9"]
+WS_ONLY = [" ", "  ", "\t", "\n", " \t ", "\r\n", "\u00a0", "\n\n"]
+HOSTILE = ["-x", "--help", "--socket=/nonexistent", "-s", "--", "-", "-h", "it's", 'q"uote', "$HOME `id`", "a, Key: b",
+           "{Name: x, Key: y, Size: 1}", "unlock", "list", "\u00fc\u2014\u540d", "*", "a\\b", "%s%d", "; rm -rf /", "a}\n{Name: b", "--key=1"]
+
+
+def flaglike(name):
+    return name.startswith("-")
+
+
+def q(name):
+    """A lock name in a message: as it is when plain, JSON-quoted when it has whitespace, quotes or control characters."""
+    return name if re.fullmatch(r"[A-Za-z0-9_./:@%+-]+", name or "") else json.dumps(name, ensure_ascii=False)
+
+
+def argv_text(args):
+    """The tool's arguments, unambiguous for names with whitespace or quotes."""
+    return " ".join(a if re.fullmatch(r"[A-Za-z0-9_./:=@%+,-]+", a) else json.dumps(a, ensure_ascii=False) for a in args)
 NOCODE = "LockDoesNotExistOrInvalidKey"
 
 
@@ -106,6 +142,13 @@ class Script:
     def other(self, c):
         return self.rng.choice([x for x in range(self.sc["clients"]) if x != c] or [c])
 
+    def sep(self, name):
+        """`unlock -- NAME`: always for names kong would read as flags, now and then for the others (new kinds only, so that
+        the scripts of the older kinds stay what they were)."""
+        if flaglike(name):
+            return True
+        return self.kind in NEW_KINDS and self.rng.random() < 0.2
+
     def hold(self, c, name, lease=0, via=None, role="setup"):
         hid = self.newid()
         i = self.add(op="acquire", c=c, id=hid, name=name, lease=lease, via=via or self.rng.choice(["trylock", "trylock", "lock"]), role=role)
@@ -125,7 +168,10 @@ class Script:
         self.waiting[name] = self.waiting.get(name, 0) + 1
         return wid
 
-    def release(self, how, hid=None, name=None, check_lease=True):
+    def holds_on(self, name):
+        return [k for k, h in self.live.items() if h["name"] == name and not k.startswith("g")]
+
+    def release(self, how, hid=None, name=None, check_lease=True, probe=True):
         """One release and everything the property says about its effect. how: cli-key | cli-name | own | other"""
         if hid is not None:
             name = self.live[hid]["name"]
@@ -134,11 +180,11 @@ class Script:
         holder = self.live[hid]["c"] if hid else 0
         prober = self.other(holder)
         probed = False
-        if was_full and not waiters and self.rng.random() < 0.85:
+        if was_full and not waiters and probe and self.rng.random() < 0.85:
             self.refused(prober, name, "pre_full")
             probed = True
         if how == "cli-key":
-            self.add(op="cli_unlock", by="key", target=hid, via=self.via(), role="release")
+            self.add(op="cli_unlock", by="key", target=hid, via=self.via(), role="release", sep=self.sep(name))
         elif how == "cli-name":
             if hid is None:
                 real = [k for k, h in self.live.items() if h["name"] == name and not k.startswith("g")]
@@ -147,9 +193,9 @@ class Script:
                 else:
                     self.fuzzy.add(name)
             if hid is not None:
-                self.add(op="cli_unlock", by="name", target=hid, via=self.via(), role="release")
+                self.add(op="cli_unlock", by="name", target=hid, via=self.via(), role="release", sep=self.sep(name))
             else:
-                self.add(op="cli_unlock", by="raw", name=name, via=self.via(), role="release")
+                self.add(op="cli_unlock", by="raw", name=name, via=self.via(), role="release", sep=self.sep(name))
         elif how == "own":
             self.add(op="unlock", c=holder, target=hid, role="release")
         else:
@@ -168,7 +214,7 @@ class Script:
         self.look("after_unlock")
         if waiters and was_full:
             self.add(op="waiters", name=name, ms=120, role="freed_once")
-        elif was_full and (probed or self.rng.random() < 0.85):
+        elif was_full and probe and (probed or self.rng.random() < 0.85):
             self.hold(prober, name, lease=0, via="trylock", role="freed")
             if self.room(name) <= 0:
                 self.refused(self.other(prober), name, "freed_once")
@@ -198,9 +244,23 @@ class Script:
         self.add(op="cli_list", via=self.via(), role="after_restart")
         return i
 
-    def bad_unlock(self, name, key=None):
-        self.add(op="cli_unlock", by="raw", name=name, key=key, via=self.via(), role="must_fail")
+    def bad_unlock(self, name, key=None, key_pre=None, key_post=None):
+        self.add(op="cli_unlock", by="raw", name=name, key=key, key_pre=key_pre, key_post=key_post, via=self.via(), role="must_fail", sep=self.sep(name))
         self.look("after_failed_unlock")
+
+    def bare_flag(self, hid, by):
+        """The tool without `--` on a name that looks like a flag: whatever it does, it must not release anything else."""
+        self.add(op="cli_unlock", by=by, target=hid, via=self.via(), role="flag_bare")
+        self.look("after_bare")
+
+    def untouched(self, names):
+        """Holds the last command did not designate: full locks stay full, leases can still be renewed."""
+        for nm in names:
+            if self.count(nm) and self.room(nm) <= 0 and not self.waiting.get(nm):
+                self.refused(self.rng.randrange(self.sc["clients"]), nm, "still_full")
+        leased = [k for k, h in self.live.items() if h["lease"] and h["name"] in names and not k.startswith("g")]
+        if leased:
+            self.add(op="renew", c=0, targets=leased, lease=60, role="still_leased")
 
 
 def pick_locks(rng, n, sizes):
@@ -334,6 +394,87 @@ def make_scenario(rng, i, kind):
         if leased:
             s.add(op="renew", c=0, targets=leased, lease=60, role="still_leased")
         s.release("cli-key", ids[0])
+    elif kind == "wsname":
+        # a name with whitespace around it AND the lock whose name is the trimmed form, held by another session
+        base = rng.choice(WS_BASES)
+        form = rng.choice(["post", "post", "pre", "both"])
+        ws = rng.choice(WS)
+        W = {"post": base + ws, "pre": ws + base, "both": ws + base + rng.choice(WS)}[form]
+        locks = [{"name": W, "size": rng.choice([1, 1, 2])}, {"name": base, "size": rng.choice([1, 1, 2])}]
+        if rng.random() < 0.4:
+            locks.append({"name": rng.choice([n for n in NAMES if n != base]), "size": 1})
+        s = Script(rng, sid, kind, locks, 3, no_clear=noclear)
+        w_ids = fill(s, rng, W, locks[0]["size"], leases=(0, 60), clients=[0, 2])
+        t_ids = fill(s, rng, base, locks[1]["size"], leases=(0, 60, 60), clients=[1])
+        for l in locks[2:]:
+            fill(s, rng, l["name"], 1)
+        s.look("baseline")
+        if rng.random() < 0.5:       # a key with whitespace around it is a wrong key
+            pad = rng.choice(WS)
+            s.bad_unlock(base, "@key:" + t_ids[0], **({"key_post": pad} if rng.random() < 0.6 else {"key_pre": pad}))
+        if s.count(W) > 1 and rng.random() < 0.5:
+            s.release("cli-name", name=W)
+        else:
+            s.release(rng.choice(["cli-name", "cli-key"]) if s.count(W) == 1 else "cli-key", rng.choice(w_ids))
+        s.untouched([base] + [l["name"] for l in locks[2:]])
+        while s.count(W) and W not in s.fuzzy:
+            s.release(rng.choice(["cli-name", "cli-key"]) if s.count(W) == 1 else "cli-key", s.holds_on(W)[0], probe=False)
+        if s.count(W) == 0:
+            s.bad_unlock(W)          # nobody holds W any more: the trimmed sibling must not be taken for it
+            s.untouched([base])
+        else:
+            s.release("cli-name", name=W, probe=False)
+        if rng.random() < 0.5:
+            if s.count(base) == 1 and base not in s.fuzzy:
+                s.release(rng.choice(["cli-name", "cli-key"]), s.holds_on(base)[0])
+            else:
+                s.release("cli-name", name=base)
+            s.untouched([W])
+    elif kind == "wsonly":
+        # a name that is nothing but whitespace; the empty name, which nobody can hold
+        W = rng.choice(WS_ONLY)
+        locks = [{"name": W, "size": rng.choice([1, 1, 2])}] + pick_locks(rng, 1, [1, 2])
+        s = Script(rng, sid, kind, locks, ncl, no_clear=noclear)
+        w_ids = fill(s, rng, W, locks[0]["size"], leases=(0, 60))
+        o_ids = fill(s, rng, locks[1]["name"], rng.randint(1, locks[1]["size"]), leases=(0, 60))
+        s.look("baseline")
+        if rng.random() < 0.6:
+            s.bad_unlock("", rng.choice([None, "@key:" + w_ids[0]]))
+        if s.count(W) > 1 and rng.random() < 0.5:
+            s.release("cli-name", name=W)
+        else:
+            s.release(rng.choice(["cli-name", "cli-key"]) if s.count(W) == 1 else "cli-key", rng.choice(w_ids))
+        s.untouched([locks[1]["name"]])
+        while s.count(W) and W not in s.fuzzy:
+            s.release(rng.choice(["cli-name", "cli-key"]) if s.count(W) == 1 else "cli-key", s.holds_on(W)[0], probe=False)
+        if s.count(W) == 0:
+            s.bad_unlock(W)
+        else:
+            s.release("cli-name", name=W, probe=False)
+        if rng.random() < 0.4:
+            s.release("cli-key", rng.choice([x for x in o_ids if x in s.live]))
+    elif kind == "hostile":
+        # names kong could read as flags / commands, names with quotes, `$`, listing syntax inside
+        flags = [n for n in HOSTILE if flaglike(n)]
+        names = [rng.choice(flags)] + rng.sample([n for n in HOSTILE if not flaglike(n)], rng.randint(1, 2))
+        if rng.random() < 0.4:
+            names.append(rng.choice([n for n in flags if n != names[0]]))
+        locks = [{"name": n, "size": rng.choice([1, 1, 2])} for n in names]
+        s = Script(rng, sid, kind, locks, ncl, no_clear=noclear)
+        ids = {}
+        for l in locks:
+            ids[l["name"]] = fill(s, rng, l["name"], rng.randint(1, l["size"]), leases=(0, 60))
+        s.look("baseline")
+        s.bare_flag(ids[names[0]][0], rng.choice(["name", "key"]))
+        order = list(names)
+        rng.shuffle(order)
+        for n in order[:rng.randint(2, len(order))]:
+            if s.count(n) == 1:
+                s.release(rng.choice(["cli-name", "cli-key"]), s.holds_on(n)[0])
+            else:
+                s.release("cli-name", name=n)
+            s.untouched([m for m in names if m != n])
+        s.bad_unlock(rng.choice(["-nosuch", "--nosuch=1", "no such"]))
     else:   # control: the same release through the tool, the holder, and another session
         locks = pick_locks(rng, rng.randint(1, 2), [2, 3])
         s = Script(rng, sid, kind, locks, 3, no_clear=noclear)
@@ -352,7 +493,7 @@ def make_scenario(rng, i, kind):
 def scenarios(seed, tier):
     """The scenario list of a run; every parameter from one PRNG seeded with the run's seed."""
     rng = random.Random(int(seed) * 1000003 + 1818)
-    n = len(KINDS) if tier == "quick" else 64
+    n = len(KINDS) if tier == "quick" else 8 * len(KINDS)
     out = []
     while len(out) < n:
         cyc = list(KINDS)
@@ -397,7 +538,8 @@ class Judge:
         self.released_by = {}   # how -> count
         self.last_cli = None
         self.stats = {"lists": 0, "listed_holds": 0, "file_reads": 0, "leased_released": 0, "restored_released": 0,
-                      "by_name_with_several": 0, "blocked_granted": 0, "failed_unlocks": 0, "roles": {}}
+                      "by_name_with_several": 0, "blocked_granted": 0, "failed_unlocks": 0, "roles": {},
+                      "ipc_listings": 0, "ipc_listing_errors": 0, "odd_names_released": 0, "sep_invocations": 0, "bare_flag": {}, "exact_checked": 0}
         self.cut = None
 
     # -- bookkeeping
@@ -440,8 +582,63 @@ class Judge:
                 self.stats["restored_released"] += 1
 
     def show(self, h):
-        return "%s/%s (size %d, session of client %d%s%s)" % (h["name"], h["key"], h["size"], h["c"], ", restored from the state file" if h["restored"] else "",
+        return "%s/%s (size %d, session of client %d%s%s)" % (q(h["name"]), h["key"], h["size"], h["c"], ", restored from the state file" if h["restored"] else "",
                                                               ", lease %ds" % h["lease"] if h["lease"] else "")
+
+    # -- listings
+    @staticmethod
+    def text_of(h):
+        return "{Name: %s, Key: %s, Size: %d}" % (h["name"], h["key"], h["size"])
+
+    def entry_tuple(self, e):
+        """One entry string -> (name, key, size), or None. The holds the clients know are recognised by their exact text."""
+        for h in self.H.values():
+            if self.text_of(h) == e:
+                return (h["name"], h["key"], h["size"])
+        m = ENTRY_RE.fullmatch(e)
+        return (m.group(1), m.group(2), int(m.group(3))) if m else None
+
+    def split_listing(self, text):
+        """The tool's stdout -> ([entry strings], None) or (None, the text that is not an entry). An entry ends with a newline
+        and may contain newlines (a name may)."""
+        known = sorted(set(self.text_of(h) for h in self.H.values()), key=len, reverse=True)
+        out, pos = [], 0
+        while pos < len(text):
+            hit = next((k for k in known if text.startswith(k + "\n", pos)), None)
+            if hit is None:
+                m = ENTRY_RE.match(text, pos)
+                if m and text.startswith("\n", m.end()):
+                    hit = m.group(0)
+            if hit is not None:
+                out.append(hit)
+                pos += len(hit) + 1
+            elif text[pos] == "\n":
+                pos += 1
+            else:
+                return None, text[pos:pos + 200]
+        return out, None
+
+    def ipc_entries(self, x):
+        """The driver's own IPC.ListLocks -> [entry strings] or None."""
+        if not x:
+            return None
+        if x.get("err"):
+            self.stats["ipc_listing_errors"] += 1
+            return None
+        self.stats["ipc_listings"] += 1
+        return list(x.get("entries") or [])
+
+    def pairs(self, entries):
+        """[entry strings] -> {(name, key): count} (entries that cannot be read keep their text as the name)."""
+        out = {}
+        for e in entries:
+            t = self.entry_tuple(e)
+            k = (t[0], t[1]) if t else (e, None)
+            out[k] = out.get(k, 0) + 1
+        return out
+
+    def cmd(self, c):
+        return "`ldlm-lock %s`" % argv_text(c["args"])
 
     # -- steps
     def run(self):
@@ -604,28 +801,38 @@ class Judge:
             bad = "was killed by " + c["killed_by"]
         elif re.search(r"panic|goroutine \d+ \[|fatal error|runtime error", c.get("stderr", "") + c.get("stdout", "")):
             bad = "crashed: " + (c.get("stderr") or c.get("stdout"))[:300]
-        self.ev("cli_no_crash", bad is None, "step %d: `ldlm-lock %s` %s" % (ob["i"], " ".join(c["args"]), bad))
+        self.ev("cli_no_crash", bad is None, "step %d: %s %s" % (ob["i"], self.cmd(c), bad))
         return bad is None
 
     def parse_list(self, ob):
         c = ob["cli"]
-        cmd = "`ldlm-lock %s`" % " ".join(c["args"])
+        cmd = self.cmd(c)
         if c["exit"] != 0:
             self.ev("list_runs", False, "step %d: %s exited with status %d: %s" % (ob["i"], cmd, c["exit"], (c.get("stderr") or c.get("stdout"))[:300]))
             return None
-        lines = [l for l in c["stdout"].split("\n") if l.strip() != ""]
-        if lines == ["No locks found"]:
+        if c["stdout"].strip("\n") == "No locks found":
             self.ev("list_runs", True)
+            self.match_ipc(ob, cmd, [])
             return []
-        out = []
-        for l in lines:
-            m = LINE_RE.match(l)
-            if not m:
-                self.ev("list_runs", False, "step %d: %s printed a line that is not one hold: %r" % (ob["i"], cmd, l[:200]))
-                return None
-            out.append((m.group(1), m.group(2), int(m.group(3))))
+        entries, bad = self.split_listing(c["stdout"])
+        if entries is None:
+            self.ev("list_runs", False, "step %d: %s printed text that is not one hold: %r" % (ob["i"], cmd, bad))
+            return None
+        out = [self.entry_tuple(e) for e in entries]
         self.ev("list_runs", True)
+        self.match_ipc(ob, cmd, entries)
         return out
+
+    def match_ipc(self, ob, cmd, entries):
+        """The tool's entries against what the server's IPC receiver told the driver right before / right after."""
+        pre, post = self.ipc_entries(ob.get("ipc_before")), self.ipc_entries(ob.get("ipc_after"))
+        if pre is None or post is None or sorted(pre) != sorted(post):
+            return        # no direct listing, or the table changed meanwhile (a lease ran out, a blocked call was granted)
+        ok = sorted(entries) == sorted(pre)
+        extra = [e for e in entries if e not in pre]
+        lacking = [e for e in pre if e not in entries]
+        self.ev("list_matches_ipc", ok, "step %d: %s printed %d entries, IPC.ListLocks of the same server returned %d just before and just after; printed only: %r; returned only: %r" % (
+            ob["i"], cmd, len(entries), len(pre), extra[:3], lacking[:3]))
 
     def compare(self, listed, inv, ack, what, ob, missing_clause, stale_clause, released_clause):
         """listed: [(name, key, size)] against what the clients know at [inv, ack]."""
@@ -639,16 +846,16 @@ class Judge:
             seen[(name, key)] = seen.get((name, key), 0) + 1
             s, h = want.get((name, key), (None, None))
             if h is None:
-                self.ev(stale_clause, False, "step %d: %s has {Name: %s, Key: %s, Size: %d}, which no client was ever granted%s" % (ob["i"], what, name, key, size, ctx))
+                self.ev(stale_clause, False, "step %d: %s has {Name: %s, Key: %s, Size: %d}, which no client was ever granted%s" % (ob["i"], what, q(name), key, size, ctx))
             elif s == "dead":
                 by = h["released_by"]
                 cl = released_clause if by else stale_clause
                 self.ev(cl, False, "step %d: %s still has %s, which %s%s" % (
                     ob["i"], what, self.show(h), ("was released by %s %d ms earlier" % (by, (inv - h["released_at"]) / 1000) if by else "ran out of its lease %d ms earlier" % ((inv - h["hi"] + SLACK_US) / 1000)), ctx))
             elif size != h["size"]:
-                self.ev(stale_clause, False, "step %d: %s has %s/%s with size %d; the lock has size %d%s" % (ob["i"], what, name, key, size, h["size"], ctx))
+                self.ev(stale_clause, False, "step %d: %s has %s/%s with size %d; the lock has size %d%s" % (ob["i"], what, q(name), key, size, h["size"], ctx))
             elif seen[(name, key)] > 1:
-                self.ev(stale_clause, False, "step %d: %s has %s/%s %d times%s" % (ob["i"], what, name, key, seen[(name, key)], ctx))
+                self.ev(stale_clause, False, "step %d: %s has %s/%s %d times%s" % (ob["i"], what, q(name), key, seen[(name, key)], ctx))
             else:
                 self.ev(stale_clause, True)
         for (name, key), (s, h) in want.items():
@@ -692,12 +899,49 @@ class Judge:
         self.stats["file_reads"] += 1
         self.compare([(e["name"], e["key"], e["size"]) for e in f["entries"]], ob["inv_us"], ob["ack_us"], "the state file", ob, a, b, c)
 
+    def exact(self, ob, cmd, name, key, live, expect_release, out):
+        """unlock_exact: the server's own listing before / after the command."""
+        pre, post = self.ipc_entries(ob.get("ipc_before")), self.ipc_entries(ob.get("ipc_after"))
+        if pre is None or post is None:
+            return None
+        inv, ack = ob["inv_us"], ob["ack_us"]
+        before, after = self.pairs(pre), self.pairs(post)
+        removed = []        # live holds (as far as the clients know) that were in the table before and are not after
+        for k, n in before.items():
+            if after.get(k, 0) >= n:
+                continue
+            h = next((h for h in self.H.values() if (h["name"], h["key"]) == k), None)
+            if h is None:
+                removed.append({"name": k[0], "key": k[1], "unknown": True})
+            elif self.status(h, inv, ack) == "live":
+                removed.append(h)
+        self.stats["exact_checked"] += 1
+        what = "unlock %s%s" % (json.dumps(name, ensure_ascii=False), " with key " + json.dumps(key, ensure_ascii=False) if key else " (by name)")
+        show = lambda h: ("{Name: %s, Key: %s} (no client was granted it)" % (json.dumps(h["name"]), h["key"])) if h.get("unknown") else self.show_q(h)  # noqa
+        tail = "; server listing before: %s; after: %s; tool: %s" % (json.dumps(sorted(pre), ensure_ascii=False)[:700], json.dumps(sorted(post), ensure_ascii=False)[:700], out)
+        if expect_release:
+            ok = len(removed) == 1 and not removed[0].get("unknown") and removed[0] in live
+            if not ok:
+                got = "nothing" if not removed else "; ".join(show(h) for h in removed[:4])
+                self.ev("unlock_exact", False, "step %d: %s: the IPC semantics of %s designate %s %s; released instead: %s%s" % (
+                    ob["i"], cmd, what, "the hold" if key or len(live) == 1 else "one of the holds", "; ".join(self.show_q(h) for h in live[:3]), got, tail))
+            else:
+                self.ev("unlock_exact", True)
+        else:
+            ok = not removed
+            self.ev("unlock_exact", ok, "step %d: %s: no live hold is designated by %s, nothing may change; released: %s%s" % (
+                ob["i"], cmd, what, "; ".join(show(h) for h in removed[:4]), tail))
+        return after
+
+    def show_q(self, h):
+        return "%s/%s (size %d, session of client %d%s)" % (json.dumps(h["name"], ensure_ascii=False), h["key"], h["size"], h["c"], ", lease %ds" % h["lease"] if h["lease"] else "")
+
     def s_cli_unlock(self, st, ob, rest):
         c = ob["cli"]
         if not self.cli_sane(ob):
             raise Inconclusive("the admin tool did not finish")
         name, key = c.get("name", ""), c.get("key", "")
-        cmd = "`ldlm-lock %s`" % " ".join(c["args"])
+        cmd = self.cmd(c)
         inv, ack = ob["inv_us"], ob["ack_us"]
         live, either = self.holds_of(name, inv, ack)
         if key:
@@ -705,33 +949,49 @@ class Judge:
             either = [h for h in either if h["key"] == key]
         if either:
             raise Inconclusive("step %d: a lease of %r was running out when the tool was run" % (ob["i"], name))
+        if c.get("sep"):
+            self.stats["sep_invocations"] += 1
         claims_ok = re.search(r"unlocked:\s*true", c.get("stdout", ""), re.I) is not None
         out = ("exit %d, stdout %r, stderr %r" % (c["exit"], c.get("stdout", "")[:120], c.get("stderr", "")[:200]))
         self.last_cli = "   [after step %d: %s -> exit %d]" % (ob["i"], cmd, c["exit"])
+        if st.get("role") == "flag_bare" and c["exit"] != 0 and not claims_ok:
+            # the name went in without `--` and kong took it for a flag: a usage error of the caller. What the tool did is
+            # recorded; it must not have released anything.
+            k = "exit %d" % c["exit"]
+            self.stats["bare_flag"][k] = self.stats["bare_flag"].get(k, 0) + 1
+            self.exact(ob, cmd, name, key, live, False, out)
+            return
+        if st.get("role") == "flag_bare" and c["exit"] == 0 and not claims_ok:
+            self.stats["bare_flag"]["exit 0, no claim (help text)"] = self.stats["bare_flag"].get("exit 0, no claim (help text)", 0) + 1
+            self.exact(ob, cmd, name, key, live, False, out)
+            return
         if not live:
             self.stats["failed_unlocks"] += 1
-            what = "no hold of %r%s is live" % (name, " with key " + key if key else "")
+            what = "no hold of %s%s is live" % (json.dumps(name, ensure_ascii=False), " with key " + json.dumps(key, ensure_ascii=False) if key else "")
             self.ev("unlock_fails", c["exit"] != 0 and not claims_ok, "step %d: %s must fail (%s) but: %s" % (ob["i"], cmd, what, out))
+            self.exact(ob, cmd, name, key, live, False, out)
             return
         says_ok = c["exit"] == 0 and "false" not in c.get("stdout", "").lower()
-        self.ev("unlock_reports_ok", says_ok, "step %d: %s on the live hold %s: %s" % (ob["i"], cmd, self.show(live[0]), out))
+        self.ev("unlock_reports_ok", says_ok, "step %d: %s on the live hold %s: %s" % (ob["i"], cmd, self.show_q(live[0]), out))
         how = "cli-key" if key else "cli-name"
-        # what the next listing says is gone
-        nxt = None
-        for r in rest:
-            if r["op"] == "cli_list" and not r.get("skipped") and r["cli"]["exit"] == 0:
-                nxt = r
-                break
-            if r["op"] in ("cli_unlock", "unlock", "restart"):
-                break
-        listed = None
-        if nxt is not None:
-            lines = [l for l in nxt["cli"]["stdout"].split("\n") if l.strip()]
-            ms = [LINE_RE.match(l) for l in lines]
-            if lines == ["No locks found"]:
-                listed = set()
-            elif all(ms):
-                listed = set((m.group(1), m.group(2)) for m in ms)
+        after = self.exact(ob, cmd, name, key, live, True, out)
+        # which hold is gone: the server's own listing right after the command; else the tool's next listing
+        listed = set(after) if after is not None else None
+        if listed is None:
+            nxt = None
+            for r in rest:
+                if r["op"] == "cli_list" and not r.get("skipped") and r["cli"]["exit"] == 0:
+                    nxt = r
+                    break
+                if r["op"] in ("cli_unlock", "unlock", "restart"):
+                    break
+            if nxt is not None:
+                if nxt["cli"]["stdout"].strip("\n") == "No locks found":
+                    listed = set()
+                else:
+                    es, _ = self.split_listing(nxt["cli"]["stdout"])
+                    if es is not None:
+                        listed = set(self.pairs(es))
         if listed is None:
             if key and says_ok:
                 self.release(live[0], how, ack)
@@ -743,10 +1003,13 @@ class Judge:
             self.ev("by_name_exactly_one", len(gone) <= 1, "step %d: %s with %d live holds of %r released %d of them: %s" % (
                 ob["i"], cmd, len(live), name, len(gone), "; ".join(self.show(h) for h in gone[:4])))
         if says_ok or gone:
-            self.ev("unlock_releases", len(gone) >= 1, "step %d: %s reported success (%s) but every hold of %r%s is still in the next listing" % (
-                ob["i"], cmd, out, name, " with that key" if key else ""))
+            self.ev("unlock_releases", len(gone) >= 1, "step %d: %s reported success (%s) but every hold of %s%s is still in the %s" % (
+                ob["i"], cmd, out, json.dumps(name, ensure_ascii=False), " with that key" if key else "",
+                "server's listing right after it" if after is not None else "next listing"))
         for h in gone:
             self.release(h, how, ack)
+            if h["name"] != h["name"].strip() or flaglike(h["name"]) or re.search(r"[\s\"'`${},]", h["name"]):
+                self.stats["odd_names_released"] += 1
 
     def s_restart(self, st, ob, rest):
         stp, sta = ob.get("stop") or {}, ob.get("start") or {}
@@ -898,12 +1161,19 @@ def short(o, v=None, j=None, brief=False):
         for k in ("skipped", "call", "calls", "cli", "waiters"):
             if ob.get(k):
                 x[k] = ob[k]
+        if ob["op"] == "cli_unlock" or (ob["op"] == "cli_list" and not brief):
+            for k in ("ipc_before", "ipc_after"):
+                if ob.get(k):
+                    x["server_listing_" + k[4:]] = ob[k].get("entries") if not ob[k].get("err") else {"err": ob[k]["err"]}
         if brief:
             if ob["op"] not in ("cli_list", "cli_unlock", "restart", "await"):
                 continue
             if x.get("cli"):
                 x["cli"] = {"args": [a.replace(str(vcheck.WORKROOT), "$WORK") for a in ob["cli"]["args"]], "exit": ob["cli"]["exit"],
                             "stdout": ob["cli"]["stdout"][:400], "stderr": ob["cli"]["stderr"][:200]}
+                for k in ("server_listing_before", "server_listing_after"):
+                    if isinstance(x.get(k), list):
+                        x[k] = x[k][:8]
             x.pop("waiters", None)
         elif ob.get("file"):
             x["file"] = {"decoded": ob["file"].get("decoded"), "err": ob["file"].get("err"), "entries": ob["file"].get("entries")}
@@ -920,24 +1190,54 @@ def short(o, v=None, j=None, brief=False):
     return s
 
 
+def cli_records(o):
+    """Every run of `ldlm-lock unlock`: argv, outcome, and the server's state around it (its own IPC listing right before and
+    right after, the state file as first copied afterwards)."""
+    out = []
+    obs = o.get("obs") or []
+    for k, ob in enumerate(obs):
+        if ob.get("op") != "cli_unlock" or not ob.get("cli"):
+            continue
+        c = ob["cli"]
+        rec = {"step": ob["i"], "argv": ["ldlm-lock"] + c["args"], "socket_from_environment": bool(c.get("env_sock")), "exit": c["exit"],
+               "stdout": c.get("stdout", "")[:300], "stderr": c.get("stderr", "")[:300]}
+        for key in ("ipc_before", "ipc_after"):
+            x = ob.get(key) or {}
+            rec["server_listing_" + key[4:]] = {"err": x["err"]} if x.get("err") else x.get("entries")
+        for r in obs[k + 1:]:
+            if r.get("op") == "read_state" and r.get("file"):
+                rec["state_file_after"] = [{"name": e["name"], "key": e["key"], "size": e["size"]} for e in (r["file"].get("entries") or [])] if r["file"].get("decoded") else {"err": r["file"].get("err")}
+                break
+            if r.get("op") in ("cli_unlock", "unlock", "restart"):
+                break
+        out.append(rec)
+    return out
+
+
 def replay_obj(o, v, fails, j):
     return {
         "property": "C18", "kind": "t4-cli-scenario", "scenario": o["scenario"],
         "failed_clauses": {k: v[k] for k in fails},
+        "cli_invocations": cli_records(o),
         "observed": short(o, v, j),
         "server_args": (o.get("start") or {}).get("args"), "server_output_excerpt": (o.get("output_tail") or "")[-1500:],
         "expected": "the admin tool lists exactly the live holds; unlock <name> [<key>] releases that one hold whichever session owns it (capacity, lease timer, "
-                    "state file) exactly as the holder's own Unlock does; unlock of an unknown name / wrong key exits non-zero and changes nothing",
+                    "state file) exactly as the holder's own Unlock does; unlock of an unknown name / wrong key exits non-zero and changes nothing; name and key "
+                    "mean what IPC.Unlock of the same server means by them, byte for byte (by name+key that hold, by name alone one hold of exactly that name), "
+                    "and every other hold stays in the table, the listing and the state file",
         "tree": str(vcheck.REPO),
         "replay": "python3 -m lib.clitie --replay <this file>   or   bin/check C18 --replay <this file>   (re-runs the scenario on the current tree)",
     }
 
 
-RULE = ("T4-cli: the real ldlm-server and ldlm-lock binaries built from the tree, one server process per scenario; scenario list = 8 (quick: each "
-        "kind once) / 64 (thorough) scripts drawn from one PRNG seeded with VERIF_SEED over the kinds {unlock by name+key, unlock by name of a "
+RULE = ("T4-cli: the real ldlm-server and ldlm-lock binaries built from the tree, one server process per scenario; scenario list = 11 (quick: each "
+        "kind once) / 88 (thorough) scripts drawn from one PRNG seeded with VERIF_SEED over the kinds {unlock by name+key, unlock by name of a "
         "single hold, unlock by name with 2-3 holds of a counting lock, leased holds (1-2 s, real time), holds restored from the state file of a "
         "previous run of the same binary, Lock calls blocked on the lock, unknown name / wrong key / stale key, control: the holder's own and "
-        "another session's Unlock}; evaluations = clause evaluations (pass or fail) over all judged scenarios")
+        "another session's Unlock, a name with whitespace around it next to the lock with the trimmed name held by another session (+ a key padded with whitespace), "
+        "a name of whitespace only (+ the empty name), names kong could read as flags or commands and names with quotes / `$` / listing syntax (passed after `--`; one "
+        "bare attempt without it)}; corpus/e2e/c18cli_*.json first; the driver asks IPC.ListLocks itself right before and right after every run of the tool; "
+        "evaluations = clause evaluations (pass or fail) over all judged scenarios")
 
 ASSUMPTIONS = [
     "T4-cli: net/rpc over the unix socket, kong's argument parsing, the tool's exit status and its output are exercised on the scenarios run (counts in coverage.ties['T4-cli']), not modelled",
@@ -945,7 +1245,9 @@ ASSUMPTIONS = [
     "T4-cli: the listing format is `{Name: <name>, Key: <key>, Size: <n>}` per line, `No locks found` for none (what server/ipc and cmd/lock print); a failed unlock is recognised by a non-zero exit status and the absence of `Unlocked: true`, a successful one by exit status 0 and no `false`; message texts are not compared",
     "T4-cli: the state file is copied while the server runs (the server replaces it by rename, so the copy is one whole image) and decoded with the tree's own server/session/store",
     "T4-cli: 'the lease timer is gone' is observed through Renew with the old key (LockDoesNotExistOrInvalidKey), the server's own log (no 'Lock timer timeout' line for the released hold) and the listing / state file after the old lease has elapsed in real time",
-    "T4-cli: lock names are drawn from a fixed list (letters, digits, space, . / : _ -); names that kong would read as flags are not used",
+    "T4-cli: lock names are drawn from fixed lists: plain ones (letters, digits, inner space, . / : _ -), the same with space / tab / newline / CR / NBSP in front or behind, whitespace only, and a list of names with a leading '-', quotes, `$`, backquotes, braces, `, Key: `, the tool's own command words; the empty name cannot be held (the server refuses it) and is used for must-fail commands only. NUL cannot be passed in argv and is not used",
+    "T4-cli: names with a leading '-' are passed after `--` (kong's end-of-flags marker, which the unchanged tool honours); without it kong reads them as flags (usage error, exit 80, or the help text with exit 0): one such bare run per 'hostile' scenario is recorded (coverage bare_flag_attempts) and judged only on releasing nothing",
+    "T4-cli: the server's table before / after a command is what IPC.ListLocks answers to the driver over the same socket (net/rpc, request struct{} / response []string spelled out in the driver); when that call fails the clauses list_matches_ipc / unlock_exact are not evaluated (coverage ipc_listing_errors) and the released hold is taken from the tool's next listing as before",
 ]
 
 
@@ -1003,7 +1305,7 @@ def _run(ctx, tier, only, repeat, verbose, jobs):
         corpus_n = len(corpus)
         scs = corpus + scenarios(ctx.seed, tier)
     if jobs is None:
-        jobs = 8 if tier == "quick" else 10
+        jobs = 12
     t1 = time.time()
     results, dlog, work = run_driver(ctx, exe, srv, lockbin, scs, "run", jobs)
     wall = time.time() - t1
@@ -1052,8 +1354,8 @@ def _run(ctx, tier, only, repeat, verbose, jobs):
         o, v, fails, j = items[0]
         sc = o["scenario"]
         text = "real binaries, scenario %s (%s; locks %s; %d sessions): %s" % (
-            sc["id"], sc.get("kind"), ",".join("%s:%d" % (l["name"], l["size"]) for l in sc["locks"]), sc["clients"],
-            "; ".join("%s — %s" % (k, v[k][6:460]) for k in fails[:3]))
+            sc["id"], sc.get("kind"), ",".join("%s:%d" % (q(l["name"]), l["size"]) for l in sc["locks"]), sc["clients"],
+            "; ".join("%s — %s" % (k, v[k][6:460 if n else 900]) for n, k in enumerate(sorted(fails, key=lambda k: (HEADLINE.index(k) if k in HEADLINE else 99, CLAUSES.index(k)))[:3])))
         obj = replay_obj(o, v, fails, j)
         obj["other_scenarios_failing_the_same_way"] = [x[0]["scenario"]["id"] for x in items[1:12]]
         ctx.violation(obj, text, name="t4cli_%s_%s.json" % (sc["id"], "+".join(fails)[:60]))
@@ -1103,6 +1405,9 @@ def _run(ctx, tier, only, repeat, verbose, jobs):
         "releases": rel, "leased_or_restored_holds_released_by_the_tool": tot("leased_released"), "restored_holds_released_by_the_tool": tot("restored_released"),
         "unlock_by_name_with_several_holds": tot("by_name_with_several"), "blocked_lock_calls_granted_after_unlock": tot("blocked_granted"),
         "unlocks_that_must_fail": tot("failed_unlocks"), "script_steps_by_role": roles,
+        "ipc_listings_by_the_driver": tot("ipc_listings"), "ipc_listing_errors": tot("ipc_listing_errors"), "unlock_before_after_compared": tot("exact_checked"),
+        "holds_with_odd_names_released_by_the_tool": tot("odd_names_released"), "invocations_with_double_dash": tot("sep_invocations"),
+        "bare_flag_attempts": {k: sum(j.stats["bare_flag"].get(k, 0) for _, _, j in judged) for k in sorted(set(k for _, _, j in judged for k in j.stats["bare_flag"]))},
         "restarts": sum(1 for o, _, _ in judged for ob in (o.get("obs") or []) if ob["op"] == "restart"),
         "server_log_readable": sum(1 for o, _, _ in judged if o.get("log_parsed")),
         "scenario_wall_ms": {"max": round(max([o.get("wall_ms", 0) for o, _, _ in judged] or [0])), "sum": round(sum(o.get("wall_ms", 0) for o, _, _ in judged))},
@@ -1112,7 +1417,7 @@ def _run(ctx, tier, only, repeat, verbose, jobs):
     cov["distinct_nontrivial"] = cov.get("distinct_nontrivial", 0) + len(set(json.dumps(o["scenario"]["steps"], sort_keys=True) for o, _, _ in judged))
     cov["traces_validated_against_impl"] = cov.get("traces_validated_against_impl", 0) + len(judged)
     cov["t4cli_clause_evaluations"] = evals
-    for want in ("nameN", "leased", "restored"):
+    for want in ("nameN", "leased", "restored", "wsname", "hostile"):
         for o, v, j in judged:
             if o["scenario"].get("kind") == want:
                 cov.setdefault("samples", []).append(dict(short(o, v, j, brief=True), script=[dict(st) for st in o["scenario"]["steps"]][:12]))
@@ -1208,6 +1513,16 @@ def _m_timer_left(wt):        # server.Unlock from outside a session (the tool) 
           'if stopped := sessionId == "" || l.lockTimerMgr.Remove(timerKey(name, key)); stopped {')
 
 
+def _m_list_server_trims(wt):  # ipc.ListLocks prints names without their surrounding whitespace
+    _edit(wt, "server/ipc/ipc.go", 'lk.Name(), lk.Key(), lk.Size()))', 'strings.TrimSpace(lk.Name()), lk.Key(), lk.Size()))')
+    _edit(wt, "server/ipc/ipc.go", '\t"fmt"\n', '\t"fmt"\n\t"strings"\n')
+
+
+def _m_list_tool_tabs(wt):    # cmd/lock list prints tabs as spaces
+    _edit(wt, "cmd/lock/cmd_list.go", "\t\tfmt.Println(l)\n", '\t\tfmt.Println(strings.ReplaceAll(l, "\\t", " "))\n')
+    _edit(wt, "cmd/lock/cmd_list.go", '\t"fmt"\n', '\t"fmt"\n\t"strings"\n')
+
+
 def _m_nobuild(wt):           # cmd/lock does not compile
     _edit(wt, "cmd/lock/cmd_list.go", "\treturn nil\n}\n", "\treturn nil\n}\nfunc (\n", )
 
@@ -1215,6 +1530,10 @@ def _m_nobuild(wt):           # cmd/lock does not compile
 MUTANTS = [
     ("nosave", "seeded/C18-fallback-nosave: RemoveLock from outside the owning session does not rewrite the state file", _m_patch("C18-fallback-nosave"), "violation"),
     ("allbyname", "seeded/C18b-ipc-unlock-all-by-name: unlock by name releases every hold of the name", _m_patch("C18b-ipc-unlock-all-by-name"), "violation"),
+    ("offset", "seeded/C18c-locks-offset-per-session", _m_patch("C18c-locks-offset-per-session"), "violation"),
+    ("trim", "seeded/C18d-cli-trims-name: cmd/lock unlock TrimSpace()s name and key", _m_patch("C18d-cli-trims-name"), "violation"),
+    ("listtrim", "ipc.ListLocks prints names without their surrounding whitespace", _m_list_server_trims, "violation"),
+    ("listtabs", "cmd/lock list prints tabs as spaces", _m_list_tool_tabs, "violation"),
     ("column", "listing prints key and name in each other's column", _m_wrong_column, "violation"),
     ("dropone", "cmd/lock list skips the first hold", _m_list_drops_one, "violation"),
     ("exit0", "cmd/lock prints the error but exits 0", _m_exit_swallowed, "violation"),
